@@ -84,13 +84,22 @@ fn registry_line() -> String {
     s
 }
 
-fn run_case(uni: &Universe, acc: &Acceptor, seed: u64, i: u64) -> String {
+fn run_case(uni: &Universe, acc: &Acceptor, seed: u64, i: u64, force_tcp: bool) -> String {
     let (c, first, _want_inproc) = uni.case(seed, i);
     // what the acceptor's decoder delivers (the wire codec is C25's business, not this property's)
     let Some((seen, wire_len)) = through_codec(&first) else {
         return format!("#{} skip unencodable", i);
     };
-    let (mode, shown, (reply, srv)) = ("tcp", seen, loopback(acc, &c, &first, i));
+    // the bulk goes in-process through the hook; every 8th exhaustive case and every other random
+    // case travels over loopback TCP through the real `establish`
+    let exhaustive = i < uni.exhaustive_total();
+    let tcp = force_tcp || if exhaustive { i % 8 == 0 } else { i % 2 == 0 };
+    let (mode, shown, (reply, srv)) = if tcp {
+        ("tcp", seen, loopback(acc, &c, &first, i))
+    } else {
+        let r = catch(std::panic::AssertUnwindSafe(|| process_cfg(&c, first.clone()))).unwrap_or_else(|_| ("panic".into(), "panic".into()));
+        ("hook", first.clone(), r)
+    };
     format!("#{} case {} {} {} | {} | {} | {}", i, mode, wire_len - 6, cfg_tok(&c), pdu_tok(&shown), reply, srv)
 }
 
@@ -107,6 +116,7 @@ fn main() {
     let next = Arc::new(std::sync::atomic::AtomicUsize::new(0));
     let (tx, rx) = std::sync::mpsc::sync_channel::<(usize, String)>(4096);
     let workers = if idx.len() < 8 { 1 } else { 8 };
+    let force_tcp = a.extra.iter().any(|x| x == "--tcp");
     for _ in 0..workers {
         let (uni, idx, next, tx, seed) = (uni.clone(), idx.clone(), next.clone(), tx.clone(), a.seed);
         std::thread::spawn(move || {
@@ -116,7 +126,7 @@ fn main() {
                 if k >= idx.len() {
                     break;
                 }
-                let line = run_case(&uni, &acc, seed, idx[k]);
+                let line = run_case(&uni, &acc, seed, idx[k], force_tcp);
                 if tx.send((k, line)).is_err() {
                     break;
                 }
